@@ -59,6 +59,13 @@ def patterns(tier='quick'):
     for a, b in itertools.permutations(obs, 2):
         pats.append(('OOR', (('OAND', (a, a)), ('OAND', (a, b)))))        # repeated operand inside an absorbing AND
         pats.append(('OAND', (a, a, b))); pats.append(('OOR', (a, ('OAND', (a, b))))); pats.append(('OOR', (a, a)))
+    # absorption candidates across operator kinds: an alternative X OR an alternative over a superset of X's operands joined by the same or by the OTHER operator
+    # (AND is order-free, FOLLOWEDBY is not: only some of these collapse), in every operand order of the smaller one
+    if len(obs) >= 3:
+        for op1, op2 in itertools.product(('OAND', 'FBY'), repeat=2):
+            for x, y in itertools.permutations(obs[:2], 2):
+                for big in ((obs[0], obs[1], obs[2]), (obs[2], obs[0], obs[1]), (obs[1], obs[2], obs[0])):
+                    pats.append(('OOR', (('PAREN', (op1, (x, y))), ('PAREN', (op2, big)))))
     for a in obs:
         for q in (('WITHIN', 5.0), ('REPEATS', 2), ('STARTSTOP', T0, T1)): pats.append(('QUAL', a, q))
         pats.append(('QUAL', ('PAREN', ('OOR', (a, ('OAND', (a, obs[1]))))), ('WITHIN', 5.0)))
